@@ -573,6 +573,33 @@ def kind_of_hint(t):
     return "normal"
 
 
+def shape_of(t):
+    """the type hint as CodeBuilder.is_field_nullable looks at it, in the grammar of kernel K17 (OptProj.fty):
+    Annotated / Final wrappers, Any / NoneType / None, two-member Optional, wider union with None, unbound TypeVar,
+    anything else (incl. PEP 695 aliases, NewTypes and bound TypeVars) plain"""
+    if typing.get_origin(t) is typing.Annotated:
+        return "(OptProj.TyAnnotated %s)" % shape_of(t.__origin__)
+    if typing.get_origin(t) is typing.Final:
+        a = typing.get_args(t)
+        return "(OptProj.TyFinal %s)" % shape_of(a[0]) if a else "OptProj.TyFinalBare"
+    if t is typing.Final:
+        return "OptProj.TyFinalBare"
+    if t is typing.Any:
+        return "OptProj.TyAny"
+    if t is type(None):
+        return "OptProj.TyNoneType"
+    if t is None:
+        return "OptProj.TyNoneLit"
+    if typing.get_origin(t) in (typing.Union, types.UnionType):
+        a = typing.get_args(t)
+        if type(None) in a:
+            return "OptProj.TyOptional" if len(a) == 2 else "OptProj.TyUnionNone"
+        return "OptProj.TyPlain"
+    if isinstance(t, typing.TypeVar) and t.__bound__ is None and not t.__constraints__:
+        return "OptProj.TyTypeVarAny"
+    return "OptProj.TyPlain"
+
+
 def dflt_of(default, factory):
     if default is not MISSING:
         return ("val", default)
@@ -645,7 +672,6 @@ def analyse(mod, spec_types, timing, aliases=None, nba=False):
             m["df"] = bfield_of(odf) if odf is not None else None
         st = spec_types.get(name)
         srcs = (aliases or {}).get(name) if kind == "normal" else None
-        mech = ("annotated", None) if srcs and "annotated" in dict(srcs) else None
         m["alias"] = expected_alias(srcs)
         m["nba"] = bool(nba)
         # the three places the builder looks an alias up in, as they are on the real class (resolved in Coq by K4)
@@ -658,22 +684,14 @@ def analyse(mod, spec_types, timing, aliases=None, nba=False):
             tname, passthrough = st
             m["type"] = tname
             m["conv"] = TYPES[tname][0]
-            m["nullty"] = TYPES[tname][2]
-            m["unull"] = TYPES[tname][4]
-            if mech and mech[0] == "annotated" and tname != "Any":
-                # Annotated[T, Alias(..)] hides an Optional from the field block like any other wrapper
-                m["unull"] = m["unull"] or m["nullty"]
-                m["nullty"] = False
-            elif mech and mech[0] == "annotated":
-                m["nullty"] = False
+            m["shape"] = shape_of(t)          # m_nullty is computed from it in Coq by the translated is_field_nullable
             m["sem_null"] = type_nullable(tname)
             m["ident"] = TYPES[tname][3] or passthrough
             m["pass"] = passthrough
         else:
             m["type"] = "int" if kind == "normal" else None     # the plain base member is `int`
             m["conv"] = "CInt" if kind == "normal" else "CId"
-            m["nullty"] = False
-            m["unull"] = False
+            m["shape"] = shape_of(t) if kind == "normal" else "OptProj.TyPlain"
             m["sem_null"] = False
             m["ident"] = False
             m["pass"] = False
@@ -873,10 +891,10 @@ KIND = {"normal": "KNormal", "initvar": "KInitVar", "classvar": "KClassVar", "se
 
 
 def coq_member(m):
-    return "mkm %s %s %s %s %s %s %s %s %s %s %s %s" % (
+    return "mkm %s %s %s %s %s %s %s %s %s %s %s" % (
         coq_str(m["name"]), KIND[m["kind"]], coq_bool(m["field"]), coq_bool(m["param"]), coq_bool(m["kw"]),
         coq_dflt(m["def"]), coq_bool(m["own"]), coq_ns(m["ns"]), "None" if m["df"] is None else "(Some %s)" % coq_bfield(m["df"]),
-        coq_bool(m["nullty"]), coq_bool(m["ident"]), coq_bool(m.get("unull", False)))
+        coq_bool(m["ident"]), coq_bool(m.get("sem_null", False)))
 
 
 def coq_lay(members, sigpos, sigkw):
@@ -890,8 +908,9 @@ def coq_lay(members, sigpos, sigkw):
                                                             or m["asrc"][2]))
     tables = members[0]["anc_tables"] if members else []
     anc = "; ".join("[%s]" % "; ".join("(%s, %s)" % (coq_str(n), coq_bfield(b)) for n, b in t) for t in tables)
-    return ("{| ly_L := [%s];\n     ly_asrc := [%s];\n     ly_anc := [%s];\n     ly_kinds := [%s]; ly_nba := %s; ly_sigpos := [%s]; ly_sigkw := [%s] |}" % (
-        ";\n       ".join(coq_member(m) for m in members), asrc, anc,
+    tys = "; ".join("(%s, %s)" % (coq_str(m["name"]), m["shape"]) for m in members if m["kind"] == "normal")
+    return ("{| ly_L := [%s];\n     ly_asrc := [%s];\n     ly_anc := [%s];\n     ly_ty := [%s];\n     ly_kinds := [%s]; ly_nba := %s; ly_sigpos := [%s]; ly_sigkw := [%s] |}" % (
+        ";\n       ".join(coq_member(m) for m in members), asrc, anc, tys,
         "; ".join("(%s, %s)" % (coq_str(m["name"]), m["conv"]) for m in members if m["kind"] == "normal"),
         coq_bool(nba), "; ".join(coq_str(n) for n in sigpos), "; ".join(coq_str(n) for n in sigkw)))
 
@@ -915,7 +934,7 @@ class Rejected(Exception):
 def pyconv(m, v, cls=None):
     if m["ident"]:
         return v
-    if v is None and (m["nullty"] or m["unull"] or m["def"] == ("val", None)):
+    if v is None and (m["sem_null"] or m["def"] == ("val", None)):
         return None
     try:
         r = TYPES[m["type"]][1](v)
@@ -1074,6 +1093,101 @@ def inputs_for(rng, members, spec_types, max_keys):
         yield mask, d
 
 
+# ---------------------------------------------------------------------------
+# the constructor call the real builder emits (tie of kernel K107a)
+# ---------------------------------------------------------------------------
+
+class CallSpy:
+    """records the text of every method CodeBuilder compiles, with the class it is compiled for and whether the
+    builder ran before ('pre') or after ('post') @dataclass processed that class"""
+
+    def __init__(self):
+        from mashumaro.core.meta.code import builder as B
+        self.B = B
+        self.orig = B.CodeBuilder.compile
+        self.rec = []
+        spy = self
+
+        def compile_(self_):
+            try:
+                spy.rec.append((self_.cls, "post" if "__dataclass_fields__" in self_.cls.__dict__ else "pre",
+                                self_.lines.as_text()))
+            except Exception:  # noqa: BLE001 - a changed builder: no text, the tie reports "no call recorded"
+                pass
+            return spy.orig(self_)
+
+        B.CodeBuilder.compile = compile_
+
+    def restore(self):
+        self.B.CodeBuilder.compile = self.orig
+
+    def calls_of(self, cls, timing):
+        out = []
+        for c, t, text in self.rec:
+            if c is cls and t == timing and "_from_dict" in text.split("(", 1)[0]:
+                pc = parse_call(text)
+                if pc is not None or "return cls(" in text:      # the stub of a lazily compiled method constructs nothing
+                    out.append(pc)
+        return out
+
+    def forget(self, classes):
+        self.rec = [r for r in self.rec if r[0] not in classes]
+
+
+def parse_call(text):
+    """`return cls(__a, b=__b, **kwargs)` -> (True, ['b'], ['a']); None when there is no such single line"""
+    import re
+    hits = [m for m in (re.match(r"^\s*return cls\((.*)\)\s*$", ln) for ln in text.splitlines()) if m]
+    if len(hits) != 1:
+        return None
+    inner = hits[0].group(1)
+    pos, kw, addkw, stage = [], [], False, 0
+    for a in (inner.split(", ") if inner else []):
+        if a == "**kwargs":
+            addkw, stage = True, 2
+        elif "=" in a:
+            n, _, v = a.partition("=")
+            if v != "__" + n or stage > 1:
+                return None
+            kw.append(n)
+            stage = 1
+        elif a.startswith("__") and stage == 0:
+            pos.append(a[2:])
+        else:
+            return None
+    return addkw, kw, pos
+
+
+def coq_calls_idx(lays, calls, shard):
+    """Coq pass of the K107a tie: indices of `calls` where BindCasesK107a.call_ok fails; None when Coq failed"""
+    br = vlib.coq_make(["theories/Wire.vo", "theories/PyK.vo", "gen/K4.vo", "gen/K17.vo", "gen/K107a.vo",
+                        "theories/BindCasesK107a.vo"])
+    if not br.ok:
+        return None, "tie does not build: " + (br.error or "")
+    files = []
+    for si in range(0, max(len(calls), 1), shard):
+        chunk = calls[si:si + shard]
+        used = sorted({c[0] for c in chunk})
+        local = {li: n for n, li in enumerate(used)}
+        txt = vlib.CASE_HEADER.format(imports="Bind BindCases BindCasesK107a", gen_imports="")
+        txt += "Definition lays : list lay :=\n  [" + ";\n   ".join(lays[li] for li in used) + "].\n"
+        txt += "Definition calls : list (nat * bool * list string * list string) :=\n  [" + ";\n   ".join(
+            "(%d%%nat, %s, %s, %s)" % (local[li], coq_bool(b), coq_list([coq_str(x) for x in kw]),
+                                      coq_list([coq_str(x) for x in pos])) for li, b, kw, pos in chunk) + "].\n"
+        txt += "Eval vm_compute in (bad_idx (call_ok lays) calls).\n"
+        files.append(("c07_calls_%d" % (si // shard), txt))
+    res = vlib.coq_eval_many(files, timeout=1500, jobs=6)
+    bad = []
+    for n, (ok, out) in enumerate(res):
+        if not ok:
+            return None, out[-3000:]
+        idx = vlib.parse_nat_list(out)
+        if idx is None:
+            return None, "unparsable coq output: " + out[-1500:]
+        bad.extend(n * shard + i for i in idx)
+    return bad, ""
+
+
 def run(ctx: vlib.Ctx):
     ctx.coverage["rule"] = (
         "random dataclass hierarchies (1-3 classes, required/default/factory/kw_only (field, KW_ONLY marker, decorator)/"
@@ -1088,9 +1202,11 @@ def run(ctx: vlib.Ctx):
         "well-typed value assignment per subset; distinct = (layout shape, entry timing, key subset)")
     br = ctx.theorems("props/C07_bind.vo", [
         "C07_binding_partial", "C07_binding_post", "C07_binding", "C07_error", "C07_null_wins",
-        "C07_keys_are_code", "C07_first_key_wins",
+        "C07_keys_are_code", "C07_first_key_wins", "C07_nullable_is_code",
+        "C07_default_is_code", "C07_assembly_is_code", "C07_arg_step_is_code", "C07_kw_step_is_code",
+        "C07_field_block_is_code",
         "C07_positional_prefix", "C07_noninit_unread", "C07_sticky_irrelevant", "C07_factory_fresh",
-        "C07_binding_refuted", "C07_noninit_refuted_plain_base"], kernels=["K4"])
+        "C07_binding_refuted", "C07_noninit_refuted_plain_base"], kernels=["K4", "K17", "K107a", "K107b"])
     if br.ok and not ctx.quick():
         rc, out, _ = vlib.run(["timeout", "900", "coqchk", "-silent", "-o"] + vlib.COQ_FLAGS[:9] + ["VerifProps.C07_bind"],
                               cwd=vlib.COQ, timeout=930)
@@ -1130,6 +1246,8 @@ def run(ctx: vlib.Ctx):
     oracle_bad: set[int] = set()
     todo = spectrum_programs(ctx.rng)
     ctx.coverage["spectrum_programs"] = len(todo)
+    spy = CallSpy()                  # restored right after the loop
+    calls, call_index, call_missing = [], [], []
     for pi in range(nprog + len(todo)):
         prog = todo[pi] if pi < len(todo) else make_program(ctx.rng, nmax)
         src = render(prog)
@@ -1157,7 +1275,7 @@ def run(ctx: vlib.Ctx):
             li = len(lays)
             lays.append(coq_lay(members, sigpos, sigkw))
             shape = tuple((m["kind"], m["field"], m["param"], m["kw"], m["def"][0], m["own"], m["ns"][0],
-                           m["nullty"], m["ident"]) for m in members)
+                           m["shape"], m["ident"]) for m in members)
             ctx.hist("entries", "%s/%s" % (entry, timing))
             ctx.hist("members_per_layout", str(len(members)))
             for m in members:
@@ -1174,7 +1292,7 @@ def run(ctx: vlib.Ctx):
                                                               "not_by_alias" if m["nba"] else "alias-only"))
                 if m["kind"] == "normal" and m["field"] and m["param"]:
                     ctx.hist("default_spectrum", "%s/%s/%s" % (
-                        region_of(m["def"]), "nullable-type" if m["nullty"] else "plain-type",
+                        region_of(m["def"]), "nullable-type" if m["sem_null"] else "plain-type",
                         "identity" if m["ident"] else "converting"))
             for mask, d in inputs_for(ctx.rng, members, st, ctx.budget(7, 9) if prog.get("sweep") else nmax):
                 for m in members:
@@ -1217,10 +1335,24 @@ def run(ctx: vlib.Ctx):
                                  {"source": src, "spec": spec, "entry": entry, "input": d, "observed": show(outcome),
                                   "expected": what},
                                  sig)
+            # (T) K107a: the constructor call(s) the real builder emitted for this class at this timing
+            if not prog.get("oracle_only"):
+                got = spy.calls_of(mod.TARGET, timing)
+                if not got or None in got:
+                    call_missing.append((len(progs) - 1, entry, timing))
+                    ctx.hist("emitted_calls", "not recorded")
+                for pc in got:
+                    if pc is not None:
+                        calls.append((li,) + pc)
+                        call_index.append((len(progs) - 1, entry, timing))
+                        ctx.hist("emitted_calls", "%s/%s/%s" % ("positional" if pc[2] else "no-positional",
+                                                                "keyword" if pc[1] else "no-keyword",
+                                                                "**kwargs" if pc[0] else "no-kwargs"))
             if len(ctx.coverage["samples"]) < 4:
                 ctx.sample({"classes": src[len(PRELUDE):], "entry": entry, "timing": timing,
                             "signature": [sigpos, sigkw]})
 
+    spy.restore()
     # (M) correspondence: model vs implementation on every run above; in the same Coq pass the Coq reference
     # semantics (ref_decode) is compared with the model: model <> reference must hold exactly where the python
     # oracle rejects the real outcome (the modelled known findings)
@@ -1254,6 +1386,32 @@ def run(ctx: vlib.Ctx):
             ctx.coverage["model_differs_from_reference"] = len(rbad)
             if diff:
                 ctx.not_shown("correspondence " + name2, detail)
+    # (T) the translated argument assembly (kernel K107a run over the layout inside Coq) against the emitted calls
+    name3 = "K107a-argument-assembly-vs-emitted-call"
+    t_k107a = time.time()
+    if not ctx.kernel_report.get("K107a", {}).get("ok"):
+        why = "kernel K107a not translated: " + str(ctx.kernel_report.get("K107a", {}).get("error"))
+        ctx.correspondence(name3, 0, -1, why)
+        ctx.not_shown("correspondence " + name3, why)
+    else:
+        cbad, clog = coq_calls_idx(lays, calls, ctx.budget(400, 800))
+        if cbad is None:
+            ctx.correspondence(name3, len(calls), -1, clog)
+            ctx.not_shown("correspondence " + name3, clog)
+        else:
+            detail = ""
+            if cbad:
+                pi, entry, timing = call_index[cbad[0]]
+                detail = "first of %d: entry %s timing %s emitted (kwargs, keyword, positional) = %r\n%s" % (
+                    len(cbad), entry, timing, calls[cbad[0]][1:], progs[pi]["src"][len(PRELUDE):])
+            elif call_missing:
+                pi, entry, timing = call_missing[0]
+                detail = "first of %d: no single `return cls(...)` recorded for entry %s timing %s\n%s" % (
+                    len(call_missing), entry, timing, progs[pi]["src"][len(PRELUDE):])
+            ctx.correspondence(name3, len(calls) + len(call_missing), len(cbad) + len(call_missing), detail)
+            if cbad or call_missing:
+                ctx.not_shown("correspondence " + name3, detail)
+    ctx.coverage["phase_seconds"]["coq_calls"] = round(time.time() - t_k107a, 1)
     for info in progs:
         unload(info["mod"])
 
@@ -1262,7 +1420,7 @@ def coq_two_idx(name, lays, cases, shard):
     """one Coq pass over the cases: (indices where case_ok fails, indices where ref_agrees fails, log);
     (None, None, log) when Coq failed"""
     import re
-    br = vlib.coq_make(["theories/Wire.vo", "theories/PyK.vo", "gen/K4.vo", "theories/BindCases.vo"])
+    br = vlib.coq_make(["theories/Wire.vo", "theories/PyK.vo", "gen/K4.vo", "gen/K17.vo", "theories/BindCases.vo"])
     if not br.ok:
         return None, None, "model does not build: " + (br.error or "")
     files = []
